@@ -252,18 +252,20 @@ def receiver_field_of(pv, body, t, owner_suffix):
 
 
 # how each VM container is meant to be used (role), by field / accessor name
-# (`truncate(n)` drops entries from the top end, like repeated pops: admissible on a LIFO container)
+# (`truncate(n)` drops entries from the top end, like repeated pops: admissible on a LIFO container;
+# `clear()` drops all entries, which has no end: whether dropping them is right at that place is for the
+# rules about that place - error branch, RESUME label, stack trace - not for the discipline)
 STACK_ROLES = {
-    "value_stack": ("LIFO", ("push", "pop", "last", "last_mut", "len", "is_empty", "truncate")),
-    "register_stack": ("LIFO", ("push", "pop", "last", "last_mut", "len", "is_empty", "truncate")),
-    "return_address_stack": ("LIFO", ("push", "pop", "len", "is_empty", "truncate")),
-    "go_sub_address_stack": ("LIFO", ("push", "pop", "len", "is_empty", "truncate")),
-    "var_path_stack": ("LIFO", ("push_back", "pop_back", "back", "back_mut", "len", "is_empty", "truncate")),
+    "value_stack": ("LIFO", ("push", "pop", "last", "last_mut", "len", "is_empty", "truncate", "clear")),
+    "register_stack": ("LIFO", ("push", "pop", "last", "last_mut", "len", "is_empty", "truncate", "clear")),
+    "return_address_stack": ("LIFO", ("push", "pop", "len", "is_empty", "truncate", "clear")),
+    "go_sub_address_stack": ("LIFO", ("push", "pop", "len", "is_empty", "truncate", "clear")),
+    "var_path_stack": ("LIFO", ("push_back", "pop_back", "back", "back_mut", "len", "is_empty", "truncate", "clear")),
     # either discipline, used consistently; C03.R3 ties it to the order in which the generator stashes
     "by_ref_stack": ("FIFO or LIFO", (("push_back", "pop_front", "len", "is_empty"),
                                       ("push_back", "pop_back", "len", "is_empty"))),
     "function_result": ("LIFO", ("push", "pop", "len", "is_empty")),
-    "stacktrace": ("front-stack", ("insert", "remove", "is_empty", "len", "append", "pop", "clone")),
+    "stacktrace": ("front-stack", ("insert", "remove", "is_empty", "len", "append", "pop", "clone", "clear")),
 }
 
 
